@@ -19,8 +19,8 @@ import ast
 import os
 import sys
 
-REPO = "/repo"
-OUT = "/verif/coq/Gen/Sites.v"
+REPO = os.environ.get("VERIF_REPO", "/repo")
+OUT = os.path.join(os.path.dirname(os.path.dirname(os.path.abspath(__file__))), "coq", "Gen", "Sites.v")
 FILES = sorted(
     os.path.join(d, f)
     for d in ("pynapple/core", "pynapple/process")
